@@ -5,6 +5,7 @@ add("C08", "checks/c08_chunking.c", ["default-asan", "default-plain", "heap-plai
     "byte-at-a-time on a fresh context (reference) and again all-at-once, at EVERY single split point and under 20 random multi-way splits; a "
     "quarter of the streams additionally with the smallest buffer that never overruns and chunks capped to the free space; compared: handler/"
     "parameter/error/flush/SRQ event log, output bytes, unconsumed remainder, effect of a final flush; distinct_nontrivial = distinct streams",
+    rule_more="pre-histories (pending units + overrun / flush / device clear / buffer swap, executed messages); streams of up to 760 bytes (256 and 512 bytes left behind a unit); nested expressions and strings inside expressions; #H/#Q/#B or expression followed by string/block data; flavours c89, lf, cr; decoy context",
     technique="differential runtime monitor across schedules (segmentations of the input stream): full observable trace of each run compared with the byte-at-a-time run",
     level_text="exploration by execution: every single split point is enumerated for each generated stream (exhaustive in the split position), multi-way splits and streams are sampled",
     level_note="trusted: the byte-at-a-time run as reference (an error common to all segmentations is invisible here; C02/C05/C06 look at absolute behaviour); return values are compared only in the direction that is independent of how many messages a call carries",
